@@ -6,6 +6,10 @@ From updog Require Import Conc LockPolicy.
 From Gen Require Import LockFacts.
 Local Open Scope list_scope.
 
+Definition policy_C18_mem : policy := Eval vm_compute in LockPolicy.policy_C18_mem gen_mutexes gen_methods gen_funs.
+Definition policy_C18_big : policy := Eval vm_compute in LockPolicy.policy_C18_big gen_mutexes gen_methods gen_funs.
+Definition mem_mtx : string := Eval vm_compute in mutex_of gen_mutexes "IndexWriter".
+Definition big_mtx : string := Eval vm_compute in mutex_of gen_mutexes "BigIndexWriter".
 Definition funs_mem := reachable_funs policy_C18_mem gen_funs ["IndexWriter.AddRow"].
 Definition funs_big := reachable_funs policy_C18_big gen_funs ["BigIndexWriter.AddRow"].
 Definition addrow_mem := gen_entry "IndexWriter.AddRow".
@@ -24,9 +28,9 @@ Proof. vm_compute. reflexivity. Qed.
 (** AddRow takes the writer mutex exactly once: reading the counter, the updates and the
     increment are ONE critical section (a version that reads the id under a read lock and
     re-locks for the update satisfies the lockset discipline but not this). *)
-Lemma C18_single_section_mem : Nat.leb (max_acq policy_C18_mem funs_mem "IndexWriter.mtx" 8 addrow_mem) 1 = true.
+Lemma C18_single_section_mem : Nat.leb (max_acq policy_C18_mem funs_mem mem_mtx 8 addrow_mem) 1 = true.
 Proof. vm_compute. reflexivity. Qed.
-Lemma C18_single_section_big : Nat.leb (max_acq policy_C18_big funs_big "BigIndexWriter.mtx" 8 addrow_big) 1 = true.
+Lemma C18_single_section_big : Nat.leb (max_acq policy_C18_big funs_big big_mtx 8 addrow_big) 1 = true.
 Proof. vm_compute. reflexivity. Qed.
 
 Lemma all_repeat pol funs e n : well_locked pol funs e = true -> well_locked_all pol funs (repeat e n) = true.
